@@ -501,3 +501,141 @@ PROPS['C19'] = {
                     'the check runs green only with the proposed fix applied (macro_items.pop() instead of remove(len() - 1)); on the pinned code the crash cases are reported as violations',
                     'time-sensitive mappings: the same-output clause is checked on the real code only (recorded delays, no truncation, tap-holds resolved before stop, play key held during the replay); it is not a theorem'],
 }
+
+# ----------------------------------------------------------------------------- C12 (sequences)
+def _c12_summary(trace, final):
+    """OS trace of an R case -> what the specification speaks about: virtual keys tapped (runs of
+    `V<j>` flags over consecutive ticks), keys pressed at the OS other than backspace, number of
+    backspaces, whether sequence mode is still on."""
+    taps, downs, bs = [], [], 0
+    prev_v, cur_v, last_tick, cur_tick = set(), set(), 0, 0
+
+    def close():
+        nonlocal prev_v, cur_v
+        for j in sorted(cur_v):
+            if j not in prev_v:
+                taps.append(j)
+        prev_v, cur_v = cur_v, set()
+
+    for tok in trace.split():
+        if tok == '-':
+            continue
+        if tok.startswith('@'):
+            t = int(tok[1:])
+            if cur_tick:
+                close()
+                if t != cur_tick + 1:
+                    prev_v = set()
+            cur_tick = t
+        elif tok.startswith('d'):
+            k = int(tok[1:])
+            if k == 14:
+                bs += 1
+            else:
+                downs.append(k)
+        elif tok.startswith('V'):
+            cur_v.add(int(tok[1:]))
+    close()
+    csv = lambda l: ','.join(map(str, l)) if l else '-'
+    return f'taps={csv(taps)} down={csv(downs)} bs={bs} act={final.split()[0]}'
+
+
+def _c12_project(out):
+    if out.startswith('rej conflict'):
+        return 'rej conflict'
+    if out.startswith('ok ') and ' | ' in out:
+        parts = out.split(' | ')
+        if len(parts) == 3:
+            return _c12_summary(parts[1], parts[2])
+    return out
+
+
+def _c12_nontrivial(case, impl):
+    if case.startswith('C12 Q'):
+        return 'V' in impl or 'I' in impl
+    if case.startswith('C12 T'):
+        return True
+    # an R case counts when sequence mode did something observable: a virtual key fired, or the
+    # history ran into a failure/timeout while a table was loaded
+    return impl.startswith('ok ') and (' V' in impl or ' d' in impl or ' u' in impl)
+
+
+def _c12_stats(cases, impl):
+    import collections
+    d = collections.Counter()
+    for c, i in zip(cases, impl):
+        kind = c.split()[1]
+        d['kind_' + kind] += 1
+        if i.startswith('rej'):
+            d['rejected_' + i.split()[1]] += 1
+        elif i.startswith('crash'):
+            d['crash_' + i.split()[1]] += 1
+        elif kind == 'T':
+            d['accepted_tables'] += 1
+            n = len(i.split()) - 1
+            d['stored_1' if n <= 1 else 'stored_2_9' if n < 10 else 'stored_10_99' if n < 100 else 'stored_100_plus'] += 1
+        elif kind == 'R':
+            f = c.split()
+            d['mode_' + f[2]] += 1
+            d['always_on' if f[4] == '1' else 'leader'] += 1
+            if ' V' in i:
+                d['fired'] += 1
+            if ' d14' in i:
+                d['backspaced'] += 1
+            if ' h 1 251 ' in c:
+                d['table_has_overlap_group'] += 1
+            elif ' c ' in c or ' h ' in c:
+                d['table_has_chords'] += 1
+            else:
+                d['table_plain'] += 1
+            if i.rstrip().split(' | ')[-1].startswith('A'):
+                d['ends_active'] += 1
+    return dict(d)
+
+
+def _c12_shrink(case):
+    """drop one history event / one table entry at a time (R cases), keeping the counts consistent"""
+    f = case.split()
+    if len(f) < 3 or f[1] != 'R' or 'H' not in f:
+        return
+    h = f.index('H')
+    n = int(f[h + 1])
+    evs = [f[h + 2 + 2 * k: h + 4 + 2 * k] for k in range(n)]
+    for k in range(n):
+        rest = evs[:k] + evs[k + 1:]
+        yield ' '.join(f[:h + 1] + [str(n - 1)] + [x for e in rest for x in e])
+    for k in range(n):
+        if evs[k][0] == 't' and int(evs[k][1]) > 1:
+            e2 = evs[:k] + [['t', str(int(evs[k][1]) // 2)]] + evs[k + 1:]
+            yield ' '.join(f[:h + 1] + [str(n)] + [x for e in e2 for x in e])
+
+
+def _c12_describe(case):
+    f = case.split()
+    if f[1] == 'R':
+        return ('R case: mode %s timeout %s always-on %s modcancel %s; table and history in the token form of '
+                'lean/KVerif/Drv/C12.lean (kvharness eval C12 renders the kanata configuration)' % (f[2], f[3], f[4], f[5]))
+    return case
+
+
+PROPS['C12'] = {
+    'lean_modules': ['KVerif.Props.C12'],
+    'oracle_project': _c12_project,
+    'nontrivial': _c12_nontrivial,
+    'rule': 'Q: random key sets over a 5-symbol alphabet (incl. the overlap marker and the empty key) vs the real Trie; '
+            'T: all ordered pairs of plain sequences of length 1-3 over two keys, O- groups of every size 0-7, fixed edge cases, '
+            'random tables (plain / chords / O- groups / malformed); R: for generated accepted tables x 3 input modes x {leader, always-on}: '
+            'every sequence in every permitted order (sampled above 6 orders), every proper prefix + a non-matching key, a gap of T-1/T/T+1 at every position, '
+            'a pending prefix idling T-1/T/T+1, cut chorded/overlap plans, plus random undisciplined histories (leader re-trigger, cancel, noerase, modifiers); '
+            'non-trivial = the trie answered / a table was parsed / the run produced OS output or a virtual-key tap; distinct = distinct case line',
+    'stats': _c12_stats,
+    'shrink_candidates': _c12_shrink,
+    'describe': _c12_describe,
+    'per_case_timeout': 0.5,
+    'trusted_base': ['patricia_tree (byte trie) implements the three prefix queries as specified on lists in Model/SeqTrie.lean (cross-checked on random key sets, not proved)',
+                     'Model/SeqTrie.lean and Model/Sequences.lean as transcriptions of parse_sequences/parse_sequence_keys/gen_permutations and of do_sequence_press_logic + hooks (checked differentially)',
+                     'parse_macro_item_impl beyond the press/release expansion of key-list items; str_to_oscode; the rest of the config parser (exercised, not modelled)',
+                     'gen/g_seq.py (constants and match arms of the sequence code)'],
+    'assumptions': ['runtime theorems are about the sequence functions fed with the key presses the key-state diff produces; the layout slice (queue, one event per tick, NormalKey/Custom states) is modelled and compared per tick, not proved about',
+                    'fewer than 32 queued events and 64 key states; key codes are keyboard keys (no mouse buttons/wheel)'],
+}
